@@ -434,10 +434,8 @@ func (p *Prog) entryFlowCheck(fn *ssa.Function, coll *ssa.Parameter) []string {
 						return // an evaluation or an append takes over
 					}
 				}
-				// a local list handed to an evaluation whose content is read later is evidence too
-				if sig := calleeSig(x); sig != nil && p.pairKind(sig) == "status" {
-					return
-				}
+				// an evaluation into a list of the function's own making (an
+				// operand) produces nothing for the collector: the walk goes on
 			case *ssa.Return:
 				if len(x.Results) != 2 {
 					return
